@@ -169,7 +169,8 @@ def numeric_cases(ctx, n_cases, seeds=None):
             mt = yastn.Method('1site' if method == '1site' else '2site')
             nsw = 12
             it = mps.dmrg_(psi, Hs, project=project, method=mt, max_sweeps=nsw, iterator=True, opts_svd=opts_svd, precompute=pre,
-                           opts_eigs={'hermitian': True, 'ncv': 8, 'which': 'SR'})
+                           opts_eigs=rng.choice([{'hermitian': True, 'ncv': 8, 'which': 'SR'}, {'hermitian': True, 'ncv': 8, 'which': 'SR'},
+                                                 {'hermitian': True, 'ncv': 8}, None]))      # 'which' left to its default; everything left to the defaults
             for k, out in enumerate(it):
                 energies.append(out.energy)
                 if method == 'switch':
@@ -262,7 +263,7 @@ def general_cases(ctx, n_cases, seeds=None):
         try:
             mt = yastn.Method('1site' if method == '1site' else '2site')
             it = mps.dmrg_(psi, H, project=project, method=mt, max_sweeps=nsw, iterator=True, opts_svd={'D_total': Dcut}, precompute=pre,
-                           opts_eigs={'hermitian': True, 'ncv': 4, 'which': 'SR'})
+                           opts_eigs=rng.choice([{'hermitian': True, 'ncv': 4, 'which': 'SR'}, {'hermitian': True, 'ncv': 4}]))
             for k, out in enumerate(it):
                 if method == 'switch':
                     mt.update_('1site' if k % 2 == 0 else '2site')
